@@ -309,6 +309,9 @@ func (s *FastModularNetworkSolver) forwardStep(maxAllowedSignalDelta float64) (i
 func (s *FastModularNetworkSolver) Flush() (bool, error) {
 	for i := s.biasNeuronCount; i < s.totalNeuronCount; i++ {
 		s.neuronSignals[i] = 0.0
+	}
+	// the scratch buffer holds no constants: clear all of it (a module may have written a bias slot)
+	for i := range s.neuronSignalsBeingProcessed {
 		s.neuronSignalsBeingProcessed[i] = 0.0
 	}
 	return true, nil
